@@ -20,14 +20,16 @@ C_OWNER = {"plain": "Plain", "unmanaged": "(SpecUnmanaged false)", "unmanaged_in
 
 
 # ------------------------------------------------------------------ values
-# a value is ("I", z) | ("S", z) | ("M",) | ("E",) | ("U",)
+# a value is ("I", z) | ("S", z) | ("M",) | ("E",) | ("U",) | ("N",) None | ("ES",) '' | ("EL",) []
 def py_val(v):
     from spec_classes.types.missing import EMPTY, MISSING, UNCHANGED
     if v[0] == "I":
         return v[1]
     if v[0] == "S":
         return f"s{v[1]}"
-    return {"M": MISSING, "E": EMPTY, "U": UNCHANGED}[v[0]]
+    if v[0] == "EL":
+        return []
+    return {"M": MISSING, "E": EMPTY, "U": UNCHANGED, "N": None, "ES": ""}[v[0]]
 
 
 def enc_val(o):
@@ -38,6 +40,12 @@ def enc_val(o):
         return 3
     if o is UNCHANGED:
         return 4
+    if o is None:
+        return 5
+    if type(o) is str and o == "":
+        return 6
+    if type(o) is list and len(o) == 0:
+        return 7
     if type(o) is int:
         return 8 * o
     if type(o) is str and o[:1] == "s" and o[1:].lstrip("-").isdigit():
@@ -54,7 +62,7 @@ def c_val(v):
         return f"(VInt {cz(v[1])})"
     if v[0] == "S":
         return f"(VStr {cz(v[1])})"
-    return {"M": "VMissing", "E": "VEmpty", "U": "VUnchanged"}[v[0]]
+    return {"M": "VMissing", "E": "VEmpty", "U": "VUnchanged", "N": "VNone", "ES": "VEStr", "EL": "VEList"}[v[0]]
 
 
 def mode_value(x, priv, base):
@@ -70,6 +78,8 @@ def mode_value(x, priv, base):
         return UNCHANGED
     if m == 6:
         raise KeyError("getter: key")
+    if m == 7:
+        return None
     return base if priv is ABSENT else priv
 
 
@@ -289,9 +299,20 @@ def c_case_cp(case, seen):
 
 # ------------------------------------------------------------------ generation
 FLAGS16 = list(itertools.product((0, 1), repeat=4))
-CORE_OPS = [("Read",), ("Assign", ("I", 10)), ("Delete",), ("Poke", 4), ("Poke", 8)]
-FULL_VALUES = [("I", 10), ("I", 11), ("I", 12), ("S", 7), ("M",), ("E",), ("U",)]
-FULL_X = [0, 4, 8, 12, 16, 1, 2, 3, 5, 6, 9]
+# exhaustive alphabets (5 operations each).  Stored values that are None / falsy must behave
+# like any other stored value, so they are IN the exhaustive scope: on plain and unmanaged
+# owners the assigned value is None and one state change makes the getter return None
+# (x=7); a second alphabet assigns a truthy value; on managed (`p: int`) owners the assigned
+# value is the falsy int 0 (None is ill-typed there) and the getter returns 0 at x=0.
+CORE_NONE = [("Read",), ("Assign", ("N",)), ("Delete",), ("Poke", 4), ("Poke", 7)]
+CORE_TRUTHY = [("Read",), ("Assign", ("I", 10)), ("Delete",), ("Poke", 4), ("Poke", 8)]
+CORE_ZERO = [("Read",), ("Assign", ("I", 0)), ("Delete",), ("Poke", 4), ("Poke", 0)]
+INTS = [("I", 10), ("I", 0), ("I", 11), ("I", 12)]
+FALSY = [("N",), ("ES",), ("EL",), ("I", 0)]          # None, '', [], 0
+SENTINELS = [("M",), ("E",), ("U",)]
+FULL_VALUES = INTS + FALSY + [("S", 7)] + SENTINELS
+NORMAL_X = [0, 4, 8, 12, 16]
+FULL_X = NORMAL_X + [1, 2, 3, 5, 6, 7, 9, 15]          # 7, 15: the getter returns None
 
 
 def full_op(rng):
@@ -299,10 +320,21 @@ def full_op(rng):
     if r < 0.34:
         return ("Read",)
     if r < 0.56:
-        return ("Assign", FULL_VALUES[min(rng.randrange(10), 6)] if rng.random() < 0.5 else FULL_VALUES[rng.randrange(3)])
+        return ("Assign", pick_value(rng))
     if r < 0.74:
         return ("Delete",)
-    return ("Poke", rng.choice(FULL_X) if rng.random() < 0.6 else rng.choice(FULL_X[:5]))
+    return ("Poke", rng.choice(FULL_X) if rng.random() < 0.6 else rng.choice(NORMAL_X))
+
+
+def pick_value(rng):
+    r = rng.random()
+    if r < 0.35:
+        return rng.choice(INTS)
+    if r < 0.70:
+        return rng.choice(FALSY)
+    if r < 0.82:
+        return ("S", 7)
+    return rng.choice(SENTINELS)
 
 
 def gen_sp(rng, tier):
@@ -313,11 +345,14 @@ def gen_sp(rng, tier):
     #     EVERY sequence of length L over {read, assign v, delete, 2 state changes}
     #     (every shorter sequence is a prefix; observations are compared after every step)
     L = 4 if quick else 5
-    kinds = [("plain", 0), ("unmanaged", 0), ("managed", 0), ("managed", 1)]
+    kinds = [("plain", 0, CORE_NONE, L), ("unmanaged", 0, CORE_NONE, L),
+             ("managed", 0, CORE_ZERO, L), ("managed", 1, CORE_TRUTHY, L),
+             # truthy values on the untyped owners, one step shorter
+             ("plain", 0, CORE_TRUTHY, L - 1), ("unmanaged", 0, CORE_TRUTHY, L - 1)]
     for fl in FLAGS16:
-        for owner, pid in kinds:
+        for owner, pid, alphabet, ln in kinds:
             cfg = fl + (1, 1)
-            for seq in itertools.product(CORE_OPS, repeat=L):
+            for seq in itertools.product(alphabet, repeat=ln):
                 cases.append(((cfg, owner, 0, 0, pid, 0, list(seq)), "exh"))
     # (b) sampled: all owners, fget absent, allow_attribute_error, setter / deleter /
     #     preparer pools, sentinels and ill-typed values, getter raising / returning
@@ -331,7 +366,7 @@ def gen_sp(rng, tier):
         pid = rng.randrange(4) if owner.startswith("managed") else 0
         ln = maxlen if rng.random() < 0.7 else rng.randint(1, maxlen)
         ops = [full_op(rng) for _ in range(ln)]
-        cases.append(((cfg, owner, rng.randrange(2), rng.randrange(2), pid, rng.choice(FULL_X[:5] + FULL_X), ops), "rand"))
+        cases.append(((cfg, owner, rng.randrange(2), rng.randrange(2), pid, rng.choice(NORMAL_X + FULL_X), ops), "rand"))
     return cases
 
 
@@ -343,18 +378,19 @@ def full_cop(rng):
     if r < 0.42:
         return ("ReadI", k)
     if r < 0.62:
-        return ("Assign", k, rng.choice(FULL_VALUES[:4]) if rng.random() < 0.85 else rng.choice(FULL_VALUES))
+        return ("Assign", k, pick_value(rng))
     if r < 0.80:
         return ("Delete", k)
-    return ("Poke", k, rng.choice(FULL_X) if rng.random() < 0.5 else rng.choice(FULL_X[:5]))
+    return ("Poke", k, rng.choice(FULL_X) if rng.random() < 0.5 else rng.choice(NORMAL_X))
 
 
 def gen_cp(rng, tier):
     quick = tier == "quick"
     cases = []
     core = ([("ReadC", k) for k in range(3)] + [("ReadI", k) for k in range(3)]
-            + [("Assign", k, ("I", 10 + k)) for k in range(3)] + [("Delete", k) for k in range(3)]
-            + [("Poke", 0, 4), ("Poke", 1, 8)])
+            + [("Assign", 0, ("N",)), ("Assign", 1, ("I", 0)), ("Assign", 2, ("I", 12))]   # None, falsy 0, truthy
+            + [("Delete", k) for k in range(3)]
+            + [("Poke", 0, 4), ("Poke", 1, 7)])                                          # B (and C below B): getter returns None
     flags32 = list(itertools.product((0, 1), repeat=5))
     # (a) all 32 flag combinations x both hierarchy shapes: every sequence of length 2
     #     over 14 operations on the three classes (thorough adds a third of the length-3 ones)
@@ -374,7 +410,7 @@ def gen_cp(rng, tier):
         ccfg = fl + (0 if rng.random() < 0.06 else 1, 0 if rng.random() < 0.3 else 1)
         ln = maxlen if rng.random() < 0.7 else rng.randint(1, maxlen)
         ops = [full_cop(rng) for _ in range(ln)]
-        cases.append(((ccfg, (i // 32) % 2, rng.randrange(2), rng.randrange(2), rng.choice(FULL_X[:5] + FULL_X), ops), "rand"))
+        cases.append(((ccfg, (i // 32) % 2, rng.randrange(2), rng.randrange(2), rng.choice(NORMAL_X + FULL_X), ops), "rand"))
     return cases
 
 
@@ -427,7 +463,7 @@ def evaluate(kind, cases, tag):
         seen = run(c)
         seens.append(seen)
         terms.append(enc(c, seen))
-    bad, logs = coq_eval("C12", PRELUDE, fn, terms, shard=400, tag=f"{tag}{kind}", case_type=ty)
+    bad, logs = coq_eval("C12", PRELUDE, fn, terms, shard=1500, tag=f"{tag}{kind}", case_type=ty)
     return [(i, code, seens[i]) for i, code in bad], logs
 
 
